@@ -17,10 +17,10 @@ OBJ_SHIFT = 40
 
 
 class Sym:
-    __slots__ = ('t', 'n', 'lo', 'hi', 'origin', 'base')
+    __slots__ = ('t', 'n', 'lo', 'hi', 'origin', 'base', 's', 'slo', 'shi', 'tz', 'src', 'parts')
     def __init__(self, t, n, lo=0, hi=None):
         self.t = t; self.n = n; self.lo = lo; self.hi = ((1 << n) - 1) if hi is None else hi   # unsigned interval
-        self.origin = None; self.base = None
+        self.origin = None; self.base = None; self.s = None; self.slo = None; self.shi = None; self.tz = 0; self.src = None; self.parts = None      # tz/src/parts: provenance of packed words (x << k | y); s: s: the value as a signed integer term (INT mode), when known without an ite
 
 
 def rng(v, n):
@@ -136,6 +136,17 @@ class Interp:
         self.inputs[name] = (s, n)
         return s
 
+    def named_signed(self, name, n, lo, hi):
+        """a signed harness input in [lo, hi] (INT mode keeps the signed term, so that no ite is needed to use it)"""
+        if self.concrete_inputs is not None or self.mode == 'BV':
+            v = self.named(name, n)
+            if isinstance(v, Sym): self.assume(z3.And(v.t >= lo, v.t <= hi) if self.mode != 'BV' else z3.And(z3.SignExt(0, v.t) >= lo, z3.SignExt(0, v.t) <= hi))
+            return v
+        sv = z3.Int(name + '_s'); self.assume(z3.And(sv >= lo, sv <= hi))
+        v = self.from_signed(sv, lo, hi, n)
+        self.inputs[name] = (v, n)
+        return v
+
     def observe(self, label, v):
         """record an output of the code under test (compared between interpreter and native runs)"""
         if isinstance(v, Sym):
@@ -227,9 +238,19 @@ class Interp:
         """UB-style side condition (no overflow, ...): collected and discharged with ONE query when the path ends.
         Sound per path: every input of the completed path satisfies the path condition at the point of the operation."""
         if getattr(self, 'native', False): return
+        if self.opaque_fp and self.mentions_opaque(cond): return        # values derived from opaque floating-point results carry no range information
         self.path_obl += 1; self.stats['obligations'] = self.stats.get('obligations', 0) + 1
         self.pending_obl.append((cond, kind, msg))
         if len(self.pending_obl) >= 256: self.flush_obligations()
+
+    def mentions_opaque(self, e, cap=400):
+        todo = [e]; seen = 0
+        while todo and seen < cap:
+            x = todo.pop(); seen += 1
+            if z3.is_const(x) and x.decl().kind() == z3.Z3_OP_UNINTERPRETED:
+                if x.decl().name().startswith(('fp2int', 'fcmp')): return True
+            else: todo.extend(x.children())
+        return False
 
     def flush_obligations(self):
         po = self.pending_obl; self.pending_obl = []
@@ -292,6 +313,20 @@ class Interp:
             if r is not None: return r
         o, off = self.resolve(addr, size, 'load')
         c = o.cells.get((off, size))
+        if c is None and self.mode == 'INT':
+            # whole cells that tile the range exactly: compose at cell granularity (no byte splitting, no div/mod terms)
+            tiles = sorted(k for k in o.cells if k[0] >= off and k[0] + k[1] <= off + size)
+            if tiles and sum(k[1] for k in tiles) == size and not [k for k in o.cells if k[0] < off + size and off < k[0] + k[1] and k not in tiles] \
+                    and not any(isinstance(o.cells[k], float) for k in tiles):
+                if all(not isinstance(o.cells[k], Sym) for k in tiles):
+                    c = sum(o.cells[k] << (8 * (k[0] - off)) for k in tiles)
+                else:
+                    t = z3.Sum([self.term(o.cells[k], 8 * k[1]) * (1 << (8 * (k[0] - off))) for k in tiles])
+                    lo = sum(rng(o.cells[k], 8 * k[1])[0] << (8 * (k[0] - off)) for k in tiles); hi = sum(rng(o.cells[k], 8 * k[1])[1] << (8 * (k[0] - off)) for k in tiles)
+                    c = Sym(t, size * 8, lo, hi)
+                    if len(tiles) == 2:
+                        lo_c, hi_c = o.cells[tiles[0]], o.cells[tiles[1]]; kbits = 8 * tiles[0][1]
+                        c.parts = (self.zext(hi_c, 8 * tiles[1][1], size * 8) if isinstance(hi_c, Sym) else hi_c, self.zext(lo_c, kbits, size * 8) if isinstance(lo_c, Sym) else lo_c, kbits)
         if c is None:
             # assemble from bytes
             bs = []
@@ -368,25 +403,34 @@ class Interp:
         if o.kind == 'const': raise Finding('write-to-const', 'store to constant %s' % o.name)
         if isinstance(ty, IntTy) and ty.n < size * 8 and isinstance(v, Sym):
             v = self.zext(v, ty.n, size * 8)
+        if self.mode == 'INT' and isinstance(v, Sym) and v.parts and v.parts[0] is not None and v.parts[2] % 8 == 0 and 0 < v.parts[2] < size * 8:
+            kb = v.parts[2] // 8; hi_p, lo_p = v.parts[0], v.parts[1]
+            self.store_bytes(o, off, kb, self.trunc(lo_p, size * 8, 8 * kb) if isinstance(lo_p, Sym) else lo_p)
+            self.store_bytes(o, off + kb, size - kb, self.trunc(hi_p, size * 8, 8 * (size - kb)) if isinstance(hi_p, Sym) else hi_p)
+            return
         self.store_bytes(o, off, size, v)
 
     # ------------------------------------------------------------ integer ops
     def trunc(self, v, n, m):
         if not isinstance(v, Sym): return v & mask(m)
         if self.mode == 'BV': return Sym(z3.Extract(m - 1, 0, self.term(v, n)), m)
+        if v.src and v.src[0] == 'zext' and v.src[2] == m: return v.src[1]
+        if v.parts and v.parts[2] == m: return self.trunc(v.parts[1], n, m)
         if v.hi < (1 << m): return Sym(self.term(v, n), m, v.lo, v.hi)
         return Sym(self.term(v, n) % (1 << m), m)
 
     def zext(self, v, n, m):
         if not isinstance(v, Sym): return v
         if self.mode == 'BV': return Sym(z3.ZeroExt(m - n, self.term(v, n)), m)
-        return Sym(self.term(v, n), m, v.lo, v.hi)
+        r = Sym(self.term(v, n), m, v.lo, v.hi); r.src = ('zext', v, n)
+        return r
 
     def sext(self, v, n, m):
         if not isinstance(v, Sym): return tosigned(v, n) & mask(m)
         if self.mode == 'BV': return Sym(z3.SignExt(m - n, self.term(v, n)), m)
         t = self.term(v, n)
         if v.hi < (1 << (n - 1)): return Sym(t, m, v.lo, v.hi)
+        if v.s is not None: return self.from_signed(v.s, v.slo, v.shi, m)
         return Sym(z3.If(t >= (1 << (n - 1)), t + ((1 << m) - (1 << n)), t), m)
 
     def binop(self, op, n, a, b, flags):
@@ -437,12 +481,29 @@ class Interp:
         W = 1 << n
         if rlo >= 0: return Sym(r, n, rlo, rhi)
         if rhi < 0: return Sym(r + W, n, rlo + W, rhi + W)
-        return Sym(z3.If(r < 0, r + W, r), n)
+        v = Sym(z3.If(r < 0, r + W, r), n); v.s = r; v.slo = rlo; v.shi = rhi
+        return v
+
+    def sterm(self, v, n):
+        """INT mode: the value of v as a signed n-bit integer term"""
+        if not isinstance(v, Sym): return z3.IntVal(tosigned(v, n))
+        if v.s is not None: return v.s
+        sv = self.signed_view(v, n)
+        if sv: return sv[0]
+        return self.signed_t(v.t, n)
+
+    def srange(self, v, n):
+        if not isinstance(v, Sym): return (tosigned(v, n),) * 2
+        if v.s is not None: return (v.slo, v.shi)
+        sv = self.signed_view(v, n)
+        if sv: return (sv[1], sv[2])
+        return (-(1 << (n - 1)), (1 << (n - 1)) - 1)
 
     def intbin(self, op, n, a, b, flags):
         x = self.term(a, n); y = self.term(b, n); W = 1 << n
         if op in ('add', 'sub', 'mul') and not (op == 'mul' and isinstance(a, Sym) and isinstance(b, Sym)):
-            va, vb = self.signed_view(a, n), self.signed_view(b, n)
+            va = (a.s, a.slo, a.shi) if isinstance(a, Sym) and a.s is not None else self.signed_view(a, n)
+            vb = (b.s, b.slo, b.shi) if isinstance(b, Sym) and b.s is not None else self.signed_view(b, n)
             if va and vb:
                 (ta, l1, h1), (tb, l2, h2) = va, vb
                 if op == 'add': r, rlo, rhi = ta + tb, l1 + l2, h1 + h2
@@ -463,7 +524,16 @@ class Interp:
         (alo, ahi), (blo, bhi) = rng(a, n), rng(b, n)
         H = W >> 1
         if op in ('add', 'sub', 'mul'):
-            if op == 'mul' and isinstance(a, Sym) and isinstance(b, Sym): raise Unsupported('INT: symbolic*symbolic')
+            if op == 'mul' and isinstance(a, Sym) and isinstance(b, Sym):
+                # symbolic x symbolic product: handed to z3's nonlinear integer arithmetic
+                r = self.sterm(a, n) * self.sterm(b, n)
+                (l1, h1), (l2, h2) = self.srange(a, n), self.srange(b, n)
+                c = [l1 * l2, l1 * h2, h1 * l2, h1 * h2]; rlo, rhi = min(c), max(c)
+                if -(W >> 1) <= rlo and rhi < (W >> 1): return self.from_signed(r, rlo, rhi, n)
+                if 'nsw' in flags:
+                    self.defer_obligation(z3.And(r >= -(W >> 1), r < (W >> 1)), 'signed-overflow', 'mul nsw i%d' % n)
+                    v = Sym(self.canon_t(r, n), n); v.s = r; v.slo = max(rlo, -(W >> 1)); v.shi = min(rhi, (W >> 1) - 1); return v
+                return Sym(r % W, n)
             f = {'add': lambda p, q: p + q, 'sub': lambda p, q: p - q, 'mul': lambda p, q: p * q}[op]
             # interval fast paths: operands non-negative as signed, exact result stays in range -> no wrap, no ite
             if ahi < H and bhi < H:
@@ -486,6 +556,7 @@ class Interp:
             return Sym(r % W, n)
         if not isinstance(b, Sym):
             if op == 'and':
+                if b & (b + 1) == 0 and a.parts and (1 << a.parts[2]) == b + 1: return a.parts[1]
                 if b & (b + 1) == 0:
                     if ahi <= b: return Sym(x, n, alo, ahi)
                     if alo // (b + 1) == ahi // (b + 1):          # interval inside one period: exact, no mod
@@ -493,8 +564,16 @@ class Interp:
                     return Sym(x % (b + 1), n, 0, b)              # low mask
                 inv = (~b) & mask(n)
                 if inv & (inv + 1) == 0: return Sym(x - (x % (inv + 1)), n)   # clear low bits
-            if op == 'shl': return Sym((x * (1 << b)) % W, n) if b < n else 0
-            if op == 'lshr': return Sym(x / (1 << b), n, alo >> b, ahi >> b) if b < n else 0
+            if op == 'shl':
+                if b >= n: return 0
+                if ahi < (1 << (n - b)): r = Sym(x * (1 << b), n, alo << b, ahi << b)
+                else: r = Sym((x * (1 << b)) % W, n)
+                r.tz = b; r.src = ('shl', a, b)
+                return r
+            if op == 'lshr':
+                if b >= n: return 0
+                if a.parts and a.parts[2] == b and a.parts[0] is not None: return a.parts[0]
+                return Sym(x / (1 << b), n, alo >> b, ahi >> b)
             if op == 'udiv': return Sym(x / b, n, alo // b, ahi // b)
             if op == 'urem':
                 if alo // b == ahi // b: return Sym(x - (alo // b) * b, n, alo % b, ahi % b)
@@ -511,6 +590,14 @@ class Interp:
                 s = self.signed_t(x, n); return Sym(self.canon_t(z3.If(s >= 0, s / (1 << b), -((-s + (1 << b) - 1) / (1 << b))), n), n)
             if op == 'or' and b == 0: return a
             if op == 'xor' and b == 0: return a
+        if op == 'or' and isinstance(a, Sym) and isinstance(b, Sym):
+            # disjoint bit ranges (hi << k) | lo: exact as a sum
+            for p, q in ((a, b), (b, a)):
+                if p.tz and q.hi < (1 << p.tz):
+                    r = Sym(p.t + q.t, n, p.lo + q.lo, p.hi + q.hi)
+                    hi_part = p.src[1] if p.src and p.src[0] == 'shl' and p.src[2] == p.tz and p.hi < W else None
+                    r.parts = (hi_part, q, p.tz)
+                    return r
         raise Unsupported('INT mode: %s i%d with symbolic operand(s)' % (op, n))
 
     def icmp(self, pred, n, a, b):
@@ -532,7 +619,8 @@ class Interp:
                  'ult': lambda: z3.ULT(x, y), 'ule': lambda: z3.ULE(x, y), 'sgt': lambda: x > y, 'sge': lambda: x >= y,
                  'slt': lambda: x < y, 'sle': lambda: x <= y}[pred]()
         else:
-            if pred[0] == 's' and not (rng(a, n)[1] < (1 << (n - 1)) and rng(b, n)[1] < (1 << (n - 1))): x, y = self.signed_t(x, n), self.signed_t(y, n)
+            if pred[0] == 's' and not (rng(a, n)[1] < (1 << (n - 1)) and rng(b, n)[1] < (1 << (n - 1))): x, y = self.sterm(a, n), self.sterm(b, n)
+            elif pred in ('eq', 'ne') and isinstance(a, Sym) and a.s is not None and (not isinstance(b, Sym) or b.s is not None): x, y = self.sterm(a, n), self.sterm(b, n)
             k = pred[-2:] if pred not in ('eq', 'ne') else pred
             r = {'eq': lambda: x == y, 'ne': lambda: x != y, 'gt': lambda: x > y, 'ge': lambda: x >= y, 'lt': lambda: x < y, 'le': lambda: x <= y}[k]()
         res = Sym(z3.simplify(r), 1); res.origin = (pred, a, b, n)
